@@ -293,6 +293,17 @@ impl World {
     }
 
     fn fail(&self, m: Mismatch, op: &str) -> Fail {
+        // a value that was handed to a receive future which was then dropped, and that nobody has
+        // received since, explains every later disagreement of this history: name that root cause
+        if let Some(v) = self.model.orphaned() {
+            if !(m.prop == "C04" && m.rule == "closed_handle_accepts") && m.rule != "cancelled_recv_loses_value" {
+                return Fail {
+                    prop: "C06".into(),
+                    fingerprint: format!("seqx/{}/C06.cancelled_recv_loses_value/drop.recv_future", self.cfg.flavour.name()),
+                    message: format!("value #{} was handed to a receive future that was dropped before completing; it was not put back (its send had reported success) and the channel now disagrees with the reference model: [{}.{} at {}] {}", v, m.prop, m.rule, op, m.detail),
+                };
+            }
+        }
         Fail {
             prop: m.prop.to_string(),
             fingerprint: format!("seqx/{}/{}.{}/{}", self.cfg.flavour.name(), m.prop, m.rule, m.op.unwrap_or(op)),
@@ -515,7 +526,18 @@ impl World {
                 self.futs[i].pending = false;
                 self.model.drop_fut(i);
                 self.last_kind = "drop-future";
-                (Out::Unit, Ok(()))
+                self.log.push((a, Out::Unit));
+                // dropping is something the owning task does while it runs; before it suspends again
+                // it polls whatever else it is still awaiting on this handle
+                let (is_tx, h) = (self.futs[i].is_tx, self.futs[i].handle);
+                if self.futs.iter().any(|f| f.fut.is_some() && f.polled && f.is_tx == is_tx && f.handle == h) {
+                    {
+                        let t = if is_tx { &mut self.tx_tasks[h] } else { &mut self.rx_tasks[h] };
+                        t.seen = t.wakes.0.load(Ordering::SeqCst);
+                    }
+                    self.poll_task_futs(is_tx, h, a)?;
+                }
+                return Ok(Out::Unit);
             }
         };
         self.log.push((a, out.clone()));
